@@ -92,21 +92,41 @@ class _Agg:
 
 
 # ------------------------------------------------------------------ real code, in parallel processes
+def _lookalike_key(text_codes):
+    """texts that only differ in white space or letter case get the same key (nothing semantic: it only
+    decides which texts are handled by the same process, one after the other, so that a parser whose
+    answer depends on what it was asked before is asked the look-alikes in one life time)"""
+    return "".join(drv.text_of(text_codes).split()).lower()
+
+
 def _observe_all(cases, procs):
+    order = sorted(range(len(cases)), key=lambda i: (_lookalike_key(cases[i]["text"]), cases[i]["text"]))
     if procs <= 1 or len(cases) < 200:
-        return drv.run_chunk(cases)
-    size = max(50, (len(cases) + procs * 4 - 1) // (procs * 4))
-    chunks = [cases[i:i + size] for i in range(0, len(cases), size)]
-    slim = [[dict(text=c["text"], textsp=c["textsp"]) for c in ch] for ch in chunks]
-    # the parent holds the whole universe: keep the collector (and copy-on-write) off those objects in the children
-    gc.collect()
-    gc.freeze()
-    try:
-        with multiprocessing.get_context("fork").Pool(procs) as pool:
-            outs = pool.map(drv.run_chunk, slim)
-    finally:
-        gc.unfreeze()
-    return [o for ch in outs for o in ch]
+        outs = drv.run_chunk([cases[i] for i in order])
+    else:
+        size = max(50, (len(cases) + procs * 4 - 1) // (procs * 4))
+        chunks, cur, last = [], [], None
+        for i in order:                      # look-alikes never straddle a chunk boundary
+            k = _lookalike_key(cases[i]["text"])
+            if len(cur) >= size and k != last:
+                chunks.append(cur)
+                cur = []
+            cur.append(dict(text=cases[i]["text"], textsp=cases[i]["textsp"]))
+            last = k
+        if cur:
+            chunks.append(cur)
+        # the parent holds the whole universe: keep the collector (and copy-on-write) off those objects in the children
+        gc.collect()
+        gc.freeze()
+        try:
+            with multiprocessing.get_context("fork").Pool(procs) as pool:
+                outs = [o for ch in pool.map(drv.run_chunk, chunks) for o in ch]
+        finally:
+            gc.unfreeze()
+    res = [None] * len(cases)
+    for i, o in zip(order, outs):
+        res[i] = o
+    return res
 
 
 def _with_mp(norm_list):
@@ -170,9 +190,10 @@ def _spec_reads(rep, printed_texts):
 
 
 # ------------------------------------------------------------------ seeded-random trees (I->S)
-_ATTRS = ["a", "b", "parent", "parents", "_x1", "m", "p", "a"]
-_TYPES = ["T", "U"]
-_FIXED = [("n", 39), ("n", 34), ("", 39), ("n'", 34), ("it's", 34), ('say "n"', 39), ("n m", 39), ("n\\'", 39),
+_ATTRS = ["a", "b", "parent", "parents", "_x1", "m", "p", "a", "\xe9l", "gr\xf6\xdfe", "\u03a9m", "\u044f1", "\u4e2d", "a\u0663", "A"]
+_TYPES = ["T", "U", "\xc9c", "\u0416"]
+_FIXED = [("n", 39), ("n", 34), ("", 39), ("n'", 34), ("it's", 34), ('say "n"', 39), ("n m", 39), ("nm", 39), ("n  m", 39), (" n", 39), ("N", 39),
+          ("n\tm", 34), ("n\\'", 39),
           ("n'~b.'m", 34), ("a.b", 34), ("\\n", 34), ("'", 34), ('"', 39), ("m", 39)]
 
 
@@ -218,6 +239,23 @@ def _size(x):
     return 1, 0
 
 
+def _squeezed(x):
+    """the same tree with the white space taken out of every fixed name (None if there is none)"""
+    hit = [False]
+
+    def go(y):
+        if isinstance(y, list):
+            return [go(z) for z in y]
+        if isinstance(y, dict):
+            if y.get("k") == "nav" and y["mode"] == "fixed" and any(c in (9, 32) for c in y["fixed"]):
+                hit[0] = True
+                return dict(y, fixed=[c for c in y["fixed"] if c not in (9, 32)])
+            return {k: go(v) for k, v in y.items()}
+        return y
+    out = go(x)
+    return out if hit[0] else None
+
+
 def _random_trees(rng, count):
     out = []
     while len(out) < count:
@@ -227,7 +265,28 @@ def _random_trees(rng, count):
         if n > (24, 16, 12, 9)[d]:
             continue
         out.append(dict(id=f"r{len(out)}", mode="ast", ast=dict(flags=drv.codes_of(flags), seq=seq)))
+        twin = _squeezed(seq)          # a look-alike: differs only by white space inside fixed names
+        if twin is not None and len(out) < count:
+            out.append(dict(id=f"r{len(out)}", mode="ast", ast=dict(flags=drv.codes_of(flags), seq=twin)))
     return out
+
+
+UNI_LETTERS = [233, 201, 246, 252, 223, 937, 969, 1103, 1046, 20013]     # = UniLetters of RrelSyntax.tla
+UNI_DIGITS = [1635, 2409]                                                # = UniDigits
+
+
+def _calibrate():
+    """The module's table of non-ASCII word characters against Python's `re` (trusted base)."""
+    import re
+    for c in UNI_LETTERS:
+        if not re.fullmatch(r"[^\d\W]", chr(c)):
+            raise tlc.MachineryError(f"U+{c:04X} is listed as a letter in RrelSyntax.tla but re disagrees")
+    for c in UNI_DIGITS:
+        if not (re.fullmatch(r"\d", chr(c)) and re.fullmatch(r"\w", chr(c))):
+            raise tlc.MachineryError(f"U+{c:04X} is listed as a digit in RrelSyntax.tla but re disagrees")
+    used = {ord(ch) for w in _ATTRS + _TYPES for ch in w if ord(ch) > 127}
+    if not used <= set(UNI_LETTERS) | set(UNI_DIGITS):
+        raise tlc.MachineryError("generator uses non-ASCII identifier characters the module does not know")
 
 
 # ------------------------------------------------------------------ entry points
@@ -247,11 +306,15 @@ def run(rep):
         "an expression is 'any RREL expression' iff rrel.parse accepts its text; trees that cannot be written are not built",
         "evaluation ('same results') is differential: rrel.find from every object of a fixed 13-object model for five names, "
         "with use_proxy taken from each expression's own flags",
-        "identifier characters are ASCII in the module",
+        "identifier characters are ASCII plus a table of 12 non-ASCII letters / digits whose class the module states and "
+        "the harness checks against Python's re; no other non-ASCII character is used in a name",
+        "texts that differ only in white space or letter case are parsed by the same process one after the other "
+        "(parse must not depend on what was parsed before)",
         "fixed names do not end in a backslash (the RREL string syntax cannot write such a name unambiguously: the "
         "backslash would escape the closing quote whenever another quote follows)",
     ]
     findings = common.open_findings(PID)
+    _calibrate()
     phase, t0 = {}, time.time()
 
     def lap(name):
